@@ -56,6 +56,7 @@ from ..engine.resolver import FuncInfo, Program, walk_no_nested
 from ..engine.sympath import Path
 from ..engine.terms import Poly, TermEval
 from ..engine.util import canon, method_call, u
+from . import _c09_util
 from ._c09_util import (
     MutationSummary, OrderedSymExec, decided, entails_le, entails_lt, first_call, func_params, index_of,
     is_extreme_of, loop_paths, lower_bounded, none_test, ordered_paths, pre_name, rename_comp_vars,
@@ -397,6 +398,10 @@ def _roles(prog: Program) -> dict[str, str]:
     return roles
 
 
+_c09_util.KEEP_RESOLVER = lambda prog: set(_roles(prog).values())  # noqa: E731
+_c09_util.ROLE_HINT_NAMES |= set(ROLE_HINTS.values())
+
+
 def _role(prog: Program, role: str) -> str:
     return _roles(prog)[role]
 
@@ -426,7 +431,8 @@ def check_norm(run: Run, prog: Program) -> None:
     def tree(m: FuncInfo) -> FuncInfo:
         # simple private helpers are read at their call site (with the actual arguments)
         if m.name not in trees:
-            trees[m.name] = FuncInfo(m.name, m.module, inline_helpers(prog, m), m.cls, m.outer)
+            trees[m.name] = FuncInfo(m.name, m.module, inline_helpers(prog, m, exclude=set(_roles(prog).values())),
+                                     m.cls, m.outer)
         return trees[m.name]
 
     def ret_qual(name: str) -> str:
@@ -454,7 +460,7 @@ def check_norm(run: Run, prog: Program) -> None:
     changed = True
     while changed:
         changed = False
-        for name in sorted(set(PRIVATE_ALIGNED) - strict - ANCHOR_NAMES):
+        for name in sorted(set(PRIVATE_ALIGNED) - strict - (ANCHOR_NAMES - set(ROLE_HINTS.values()))):
             m = cls.methods[name]
             memo.clear()
             trial = Typestate(run, tree(m), set(), {p for _, p in _datetime_params(m)}, ret_qual=ret_qual)
